@@ -17,6 +17,7 @@ package bt
 //@   ensures[C01.varint_bytes_len] (= (len result) (spec.vlen v))
 //@   opt bytes-bound 9
 //@   opt bytes-le-defs 1
+//@   opt reveal vi
 //@   ensures[C01.varint_bytes] (= (bytes result) (spec.vi v))
 
 //@ func bt.LittleEndianBytes
@@ -329,8 +330,9 @@ package bt
 //@ func bt.(*Tx).toBytesHelper
 //@   pure
 //@ func bt.(*Tx).Size
+//@   bytes token
+//@   requires (spec.out_scripts_nonnil tx) (spec.inputs_nonnil tx)
 //@   ensures[size_is_ser_len] (and (= result (spec.ser_len tx)) (<= 0 result))
-//@   trusted "ser_len is the abstract serialised length; len(Bytes()) is tied to the wire format under C01"
 
 //@ func bt.(*Tx).SizeWithTypes
 //@   ensures[C11.size_total] (= (. result TotalBytes) (old (spec.ser_len tx)))
@@ -397,3 +399,92 @@ package bt
 //@   loop 1 invariant (fresh h)
 //@   loop 0 invariant (= (bytes h) (bcat (le32 (old (. tx Version))) (bcat (ite extended (spec.ext_marker) beps) (bcat (spec.vi (old (len (. tx Inputs)))) (old (spec.ser_ins tx index lockingScript extended (+ rangeindex 1)))))))
 //@   loop 1 invariant (= (bytes h) (bcat (le32 (old (. tx Version))) (bcat (ite extended (spec.ext_marker) beps) (bcat (spec.vi (old (len (. tx Inputs)))) (bcat (old (spec.ser_ins tx index lockingScript extended (len (. tx Inputs)))) (bcat (spec.vi (old (len (. tx Outputs)))) (old (spec.ser_outs tx (+ rangeindex 1)))))))))
+//@ func bt.(*Tx).Bytes
+//@   bytes token
+//@   requires (spec.out_scripts_nonnil tx) (spec.inputs_nonnil tx)
+//@   fresh result
+//@   ensures[C01.bytes] (= (bytes result) (old (spec.tx_bytes tx false)))
+//@ func bt.(*Tx).ExtendedBytes
+//@   bytes token
+//@   pure
+//@   requires (spec.out_scripts_nonnil tx) (spec.inputs_nonnil tx)
+//@   fresh result
+//@   ensures[C01.extended_bytes] (= (bytes result) (old (spec.tx_bytes tx true)))
+//@ func bt.(*Tx).BytesWithClearedInputs
+//@   bytes token
+//@   pure
+//@   requires (spec.out_scripts_nonnil tx) (spec.inputs_nonnil tx)
+//@   fresh result
+//@   ensures[C03.cleared_bytes] (= (bytes result) (old (spec.tx_ser tx index lockingScript false)))
+//@ func bt.(*Tx).TxIDBytes
+//@   bytes token
+//@   pure
+//@   requires (spec.out_scripts_nonnil tx) (spec.inputs_nonnil tx)
+//@   fresh result
+//@   ensures[C01.txid_bytes] (= (bytes result) (brev (bsha256d (old (spec.tx_bytes tx false)))))
+//@ func bt.(*Tx).TxID
+//@   bytes token
+//@   pure
+//@   requires (spec.out_scripts_nonnil tx) (spec.inputs_nonnil tx)
+//@   ensures[C01.txid] (= result (bhex (brev (bsha256d (old (spec.tx_bytes tx false))))))
+//@ func bt.(*Tx).String
+//@   bytes token
+//@   pure
+//@   requires (spec.out_scripts_nonnil tx) (spec.inputs_nonnil tx)
+//@   ensures[C01.string_hex] (= result (bhex (old (spec.tx_bytes tx false))))
+
+// ---- wire decoding (C01): what was consumed is the encoding of what was returned ----
+//@ func bt.(*VarInt).ReadFrom
+//@   bytes token
+//@   opt bytes-le-defs 1
+//@   opt reveal vi_n
+//@   ensures[C01.varint_read_len] (=> (= err nil) (and (or (= r0 1) (= r0 3) (= r0 5) (= r0 9)) (>= r0 (spec.vlen (deref v))) (=> (= r0 1) (< (deref v) 253)) (=> (= r0 3) (< (deref v) 65536)) (=> (= r0 5) (< (deref v) 4294967296)) (<= 0 (deref v)) (< (deref v) 18446744073709551616)))
+//@   ensures[C01.varint_read] (=> (= err nil) (= (old (rem r)) (bcat (spec.vi_n (deref v) r0) (rem r))))
+//@ func bt.readBytesN
+//@   bytes token
+//@   ensures[C01.readn] (=> (= err nil) (and (= (len r0) n) (= r1 n) (= (old (rem r)) (bcat (bytes r0) (rem r)))))
+//@   loop 0 invariant (= (old (rem r)) (bcat (bytes buf) (rem r)))
+//@ func bt.(*Output).ReadFrom
+//@   bytes token
+//@   ensures[C01.output_read] (=> (= err nil) (and (not (nil? (. o LockingScript))) (spec.vi_ok (len (. o LockingScript)) (- r0 (+ 8 (len (. o LockingScript))))) (= (old (rem r)) (bcat (spec.out_wire o (- r0 (+ 8 (len (. o LockingScript))))) (rem r)))))
+//@ func bt.(*Input).readFrom
+//@   bytes token
+//@   ensures[C01.input_read] (=> (and (= err nil) (not extended)) (and (not (nil? (. i UnlockingScript))) (= (len (. i previousTxID)) 32) (spec.vi_ok (len (. i UnlockingScript)) (- r0 (+ 40 (len (. i UnlockingScript))))) (= (old (rem r)) (bcat (spec.in_wire i (- r0 (+ 40 (len (. i UnlockingScript))))) (rem r)))))
+//@ func bt.(*Output).ReadFrom
+//@   ensures[C01.output_read_canon] (=> (= err nil) (and (= (blen (old (rem r))) (+ r0 (blen (rem r)))) (>= r0 (blen (spec.out_bytes o))) (=> (= r0 (blen (spec.out_bytes o))) (= (old (rem r)) (bcat (spec.out_bytes o) (rem r))))))
+//@ func bt.(*Input).readFrom
+//@   ensures[C01.input_read_canon] (=> (= err nil) (and (not (nil? (. i UnlockingScript))) (= (len (. i previousTxID)) 32) (=> extended (not (nil? (. i PreviousTxScript)))) (= (blen (old (rem r))) (+ r0 (blen (rem r)))) (>= r0 (blen (spec.in_canon i extended))) (=> (= r0 (blen (spec.in_canon i extended))) (= (old (rem r)) (bcat (spec.in_canon i extended) (rem r))))))
+//@ func bt.(*Tx).ReadFrom
+//@   bytes token
+//@   opt closed-heaps 1
+//@   ensures[C01.tx_read_nonnil] (=> (= err nil) (and (spec.inputs_nonnil tx) (spec.out_scripts_nonnil tx)))
+//@   ensures[C01.tx_read_count] (=> (= err nil) (= (blen (old (rem r))) (+ r0 (blen (rem r)))))
+//@   lemma (=> (= err nil) (and (>= r0 (blen (spec.tx_bytes tx extended))) (=> (= r0 (blen (spec.tx_bytes tx extended))) (= (old (rem r)) (bcat (spec.tx_bytes tx extended) (rem r))))))
+//@   ensures[C01.tx_read_canon] (=> (= err nil) (or (and (>= r0 (blen (spec.tx_bytes tx false))) (=> (= r0 (blen (spec.tx_bytes tx false))) (= (old (rem r)) (bcat (spec.tx_bytes tx false) (rem r))))) (and (>= r0 (blen (spec.tx_bytes tx true))) (=> (= r0 (blen (spec.tx_bytes tx true))) (= (old (rem r)) (bcat (spec.tx_bytes tx true) (rem r)))))))
+//@   loop 0 invariant (and (= (len (. tx Inputs)) i) (<= i inputCount) (= (len (. tx Outputs)) 0) (=> (and (= inputCount 0) (not extended)) (> outputCount 0)))
+//@   loop 0 invariant (spec.inputs_nonnil tx)
+//@   loop 0 invariant (= (blen (old (rem r))) (+ bytesRead (blen (rem r))))
+//@   loop 0 invariant (>= bytesRead (blen (spec.tx_pre_in tx extended inputCount outputCount i)))
+//@   loop 0 invariant (=> (= bytesRead (blen (spec.tx_pre_in tx extended inputCount outputCount i))) (= (old (rem r)) (bcat (spec.tx_pre_in tx extended inputCount outputCount i) (rem r))))
+//@   loop 1 invariant (and (= (len (. tx Outputs)) i) (<= i outputCount) (= (len (. tx Inputs)) inputCount))
+//@   loop 1 invariant (spec.inputs_nonnil tx)
+//@   loop 1 invariant (spec.out_scripts_nonnil tx)
+//@   loop 1 invariant (= (blen (old (rem r))) (+ bytesRead (blen (rem r))))
+//@   loop 1 invariant (>= bytesRead (blen (spec.tx_pre_out tx extended inputCount outputCount i)))
+//@   loop 1 invariant (=> (= bytesRead (blen (spec.tx_pre_out tx extended inputCount outputCount i))) (= (old (rem r)) (bcat (spec.tx_pre_out tx extended inputCount outputCount i) (rem r))))
+//@ func bt.NewTxFromStream
+//@   bytes token
+//@   ensures[C01.stream_nonnil] (=> (= err nil) (and (spec.inputs_nonnil r0) (spec.out_scripts_nonnil r0)))
+//@   ensures[C01.stream_used] (=> (= err nil) (and (<= 0 r1) (<= r1 (len b))))
+//@   ensures[C01.stream_canon] (=> (= err nil) (or (and (>= r1 (blen (spec.tx_bytes r0 false))) (=> (= r1 (blen (spec.tx_bytes r0 false))) (= (bsub (bytes b) 0 r1) (spec.tx_bytes r0 false)))) (and (>= r1 (blen (spec.tx_bytes r0 true))) (=> (= r1 (blen (spec.tx_bytes r0 true))) (= (bsub (bytes b) 0 r1) (spec.tx_bytes r0 true))))))
+//@ func bt.NewTxFromStream
+//@   define (=> (= err nil) (= r1 (spec.parse_used (bytes b))))
+//@ func bt.NewTxFromBytes
+//@   bytes token
+//@   ensures[C01.frombytes_exact] (=> (= err nil) (= (spec.parse_used (bytes b)) (len b)))
+//@   ensures[C01.frombytes_nonnil] (=> (= err nil) (and (not (nil? r0)) (spec.inputs_nonnil r0) (spec.out_scripts_nonnil r0)))
+//@   ensures[C01.frombytes_canon] (=> (= err nil) (or (and (>= (len b) (blen (spec.tx_bytes r0 false))) (=> (= (len b) (blen (spec.tx_bytes r0 false))) (= (bytes b) (spec.tx_bytes r0 false)))) (and (>= (len b) (blen (spec.tx_bytes r0 true))) (=> (= (len b) (blen (spec.tx_bytes r0 true))) (= (bytes b) (spec.tx_bytes r0 true))))))
+//@ func bt.(*Txs).ReadFrom
+//@   bytes token
+//@   ensures[C01.txs_read_count] (=> (= err nil) (= (blen (old (rem r))) (+ r0 (blen (rem r)))))
+//@   loop 0 invariant (= (blen (old (rem r))) (+ bytesRead (blen (rem r))))
